@@ -12,4 +12,5 @@ prev = []
 for d in sorted(glob.glob('/verif/seeded/seed-%s-*' % low)):
     prev.append('- ' + json.load(open(d + '/meta.json')).get('title', ''))
 t = t.replace('Vary the kinds of defects;', 'Defects of these descriptions were produced in earlier rounds - do NOT repeat them or close variants; pick other functions, other files, other mechanisms (look across ALL the anchored files, including the less obvious ones):\n' + '\n'.join(prev) + '\nVary the kinds of defects;')
+t = t.replace('Never edit /repo itself.', 'Never edit /repo itself. Never use `git stash` anywhere (the stash is shared between /repo and all its worktrees and other people are working there): to run something without your patch do `git -C <your worktree> diff > /tmp/seeds/<something>.diff && git -C <your worktree> checkout -- .` and re-apply it with `git -C <your worktree> apply`.')
 print(t)
